@@ -258,11 +258,49 @@ def rewrite_tail_continue(src, ed, loops, lo, hi, log):
             if sig[j].text == ';':
                 j += 1
             ok = _is_tail_position(sig, j, l.close_idx)
+            if not ok and sig[i + 1].kind != 'life':
+                # R1b: `if COND { continue; } REST` directly in the loop body -> `if COND { } else { REST }`
+                blk_open = i - 1
+                if sig[blk_open].text == '{' and sig[blk_open].mate == j and sig[j].text == '}':
+                    # the block holds only `continue;`: find the `if` that owns it, at depth 1 of the loop body
+                    k = blk_open - 1
+                    depth_ok = False
+                    while k > l.open_idx:
+                        if sig[k].kind == 'p' and sig[k].text in ')]}':
+                            k = sig[k].mate - 1
+                            continue
+                        if sig[k].kind == 'id' and sig[k].text == 'if':
+                            depth_ok = _depth1(sig, l.open_idx, k) and not (sig[k - 1].kind == 'id' and sig[k - 1].text == 'else')
+                            break
+                        if sig[k].kind == 'p' and sig[k].text in ';{':
+                            break
+                        k -= 1
+                    nxt = j + 1
+                    if depth_ok and not (sig[nxt].kind == 'id' and sig[nxt].text == 'else'):
+                        endpos = sig[i + 1].end if sig[i + 1].text == ';' else t.end
+                        ed.replace(t.start, endpos, '', 'R1')
+                        ed.insert(sig[j].end, ' else {', 'R1')
+                        ed.insert(sig[l.close_idx].start, '}\n', 'R1')
+                        log.append(f'R1b {src.rel}:{src.line_of(t.start)} `if c {{ continue; }} rest` rewritten as `if c {{ }} else {{ rest }}`')
+                        continue
             if not ok or sig[i + 1].kind == 'life':
                 raise LiftError(f'{src.rel}:{src.line_of(t.start)}: non-tail `continue` in a for loop (outside the liftable subset, R1)')
             endpos = sig[i + 1].end if sig[i + 1].text == ';' else t.end
             ed.replace(t.start, endpos, '', 'R1')
             log.append(f'R1 {src.rel}:{src.line_of(t.start)} tail `continue;` deleted')
+
+
+def _depth1(sig, open_idx, k):
+    """True iff token k sits directly in the block opened at open_idx (not inside a nested bracket)."""
+    j = open_idx + 1
+    while j < k:
+        if sig[j].kind == 'p' and sig[j].text in '([{':
+            if sig[j].mate > k:
+                return False
+            j = sig[j].mate + 1
+            continue
+        j += 1
+    return True
 
 
 def _is_tail_position(sig, j, loop_close):
@@ -469,6 +507,62 @@ def rewrite_format(src, ed, lo, hi, log):
             arg = src.text[sig[a0].start:sig[a1 - 1].end]
         ed.replace(sig[i].start, sig[c].end, f'vx_fmt1({openq}{pre}{closeq}, &({arg}), {openq}{post}{closeq})', 'R11')
         log.append(f'R11 {src.rel}:{src.line_of(sig[i].start)} format! with one placeholder routed through vx_fmt1')
+
+
+def rewrite_write(src, ed, lo, hi, log):
+    """R15: `write!(W, LIT [, arg])` / `writeln!(W [, LIT [, arg]])` with at most one plain placeholder ->
+    vx_write0/1 / vx_writeln0/1(W, pieces..) (fmt::Write for String)."""
+    import re as _re
+    sig = src.sig
+    for i in range(lo, hi - 2):
+        if not (sig[i].kind == 'id' and sig[i].text in ('write', 'writeln') and sig[i + 1].text == '!' and sig[i + 2].text == '('):
+            continue
+        ln = sig[i].text == 'writeln'
+        o = i + 2
+        c = sig[o].mate
+        # receiver: tokens up to the first top-level comma (or the close paren)
+        j = o + 1
+        while j < c and not (sig[j].kind == 'p' and sig[j].text == ','):
+            if sig[j].kind == 'p' and sig[j].text in '([{':
+                j = sig[j].mate
+            j += 1
+        recv = src.text[sig[o + 1].start:sig[j - 1].end]
+        if j >= c:
+            if not ln:
+                raise LiftError(f'{src.rel}:{src.line_of(sig[i].start)}: write! without a format literal')
+            ed.replace(sig[i].start, sig[c].end, f'vx_writeln0({recv}, "")', 'R15')
+            log.append(f'R15 {src.rel}:{src.line_of(sig[i].start)} writeln!(w) routed through vx_writeln0')
+            continue
+        lit = sig[j + 1]
+        if lit.kind != 'str':
+            raise LiftError(f'{src.rel}:{src.line_of(sig[i].start)}: write! without a literal (R15 subset)')
+        m = _re.fullmatch(r'(r(#*)")(.*)("#*)', lit.text, _re.S) if lit.text.startswith('r') else _re.fullmatch(r'(")()(.*)(")', lit.text, _re.S)
+        if not m:
+            raise LiftError(f'{src.rel}:{src.line_of(lit.start)}: unsupported format literal')
+        openq, body, closeq = m.group(1), m.group(3), m.group(4)
+        marked = body.replace('{{', '\x00').replace('}}', '\x01')
+        ph = list(_re.finditer(r'\{([A-Za-z_][A-Za-z0-9_]*)?\}', marked))
+        if len(ph) > 1 or marked.count('{') != len(ph):
+            raise LiftError(f'{src.rel}:{src.line_of(lit.start)}: write! with {len(ph)} placeholders or format specs (R15 subset: at most one plain placeholder)')
+        unesc = lambda x: x.replace('\x00', '{').replace('\x01', '}')
+        fn = 'vx_writeln' if ln else 'vx_write'
+        if not ph:
+            ed.replace(sig[i].start, sig[c].end, f'{fn}0({recv}, {openq}{unesc(marked)}{closeq})', 'R15')
+        else:
+            pre, post = unesc(marked[:ph[0].start()]), unesc(marked[ph[0].end():])
+            if ph[0].group(1):
+                arg = ph[0].group(1)
+                if sig[j + 2].text != ')':
+                    raise LiftError(f'{src.rel}:{src.line_of(lit.start)}: named placeholder with extra arguments')
+            else:
+                if sig[j + 2].text != ',':
+                    raise LiftError(f'{src.rel}:{src.line_of(lit.start)}: positional placeholder without argument')
+                a0, a1 = j + 3, c
+                if sig[a1 - 1].text == ',':
+                    a1 -= 1
+                arg = src.text[sig[a0].start:sig[a1 - 1].end]
+            ed.replace(sig[i].start, sig[c].end, f'{fn}1({recv}, {openq}{pre}{closeq}, &({arg}), {openq}{post}{closeq})', 'R15')
+        log.append(f'R15 {src.rel}:{src.line_of(sig[i].start)} {sig[i].text}! routed through {fn}0/1')
 
 
 def rewrite_method_shims(src, ed, lo, hi, shims, log):
